@@ -257,6 +257,30 @@ Theorem C17_loader_keeps_no_state : forall fn x w, In (fn, x, w) gen_loader_stat
 Proof. exact (loader_stateless_spec gen_loader_state (proj1 gen_loader_stateless)). Qed.
 Print Assumptions C17_loader_keeps_no_state.
 
+(* ---------------------------------------------------------------- a comparison is a function of the match alone *)
+(* every place where the per-match code writes storage that outlives the call is one of the audited three (the capture name a
+   custom filter is asked about, the capture preset of a sub-search, a local of a load-time helper): nothing remembers a value
+   from one match for the next *)
+Theorem C17_filters_keep_no_state_between_matches : forall fn x, In (fn, x) gen_run_state -> In (fn, x) doc_run_state.
+Proof. exact (run_state_spec gen_run_state gen_run_state_ok). Qed.
+Print Assumptions C17_filters_keep_no_state_between_matches.
+
+(* were sizes remembered per type: any key that determines the size is invisible for every sequence of questions ... *)
+Theorem C17_size_memo_transparent : forall (K : Type) (key : ptype -> K) (keqb : K -> K -> bool),
+  (forall a b, keqb (key a) (key b) = true -> pt_size a = pt_size b) -> forall l, calls pt_size key keqb [] l = map pt_size l.
+Proof. exact (@size_memo_transparent). Qed.
+Print Assumptions C17_size_memo_transparent.
+
+(* ... and the printed form of a type is not such a key: of two distinct types that print alike (equally named local types of
+   two functions, a local type shadowing a package-level one) the second asked about gets the size of the first, so
+   `x.Type.Size == y.Type.Size` holds for them whatever their sizes *)
+Theorem C17_size_memo_by_printed_type_unsound : forall a b,
+  pt_print b = pt_print a -> pt_size a <> pt_size b ->
+  calls pt_size pt_print String.eqb [] [a; b] <> map pt_size [a; b] /\
+  calls pt_size pt_print String.eqb [] [a; b] = [pt_size a; pt_size a].
+Proof. intros a b Hp Hs. split; [now apply size_memo_by_print_unsound|now apply size_memo_by_print_equates]. Qed.
+Print Assumptions C17_size_memo_by_printed_type_unsound.
+
 Theorem C17_comparison_closures_as_audited : cmp_closures_okb gen_cmp_closures = true.
 Proof. exact gen_cmp_closures_ok. Qed.
 Print Assumptions C17_comparison_closures_as_audited.
